@@ -356,6 +356,8 @@ def run_check(pid, tier, seed, replay=None):
                 path = replay['_path']
             print('VIOLATION property=%s replay=%s' % (pid, path))
             print('  mechanism=%s: %s' % (v['mechanism'], v['message']))
+        for why in inconclusive:
+            print('INCONCLUSIVE property=%s (besides the violations) %s' % (pid, why[-600:]))
         rc = 1
     elif inconclusive:
         for why in inconclusive:
